@@ -294,14 +294,18 @@ pub fn gen_bytes() -> Vec<u8> {
 }
 
 pub fn gen_key() -> Vec<u8> {
-    match choose_w(&[8, 2, 1, 1], "key.class") {
+    // UTF-8 and non-UTF-8 keys that sort before, between and after each other (the map encoding switches
+    // representation on "every key is UTF-8", and the keys are kept sorted)
+    match choose_w(&[10, 2, 1, 1, 1, 1], "key.class") {
         0 => {
-            let pool = ["k", "key", "k1", "k2", "", "a", "b", "host", "kéy", "k\"q"];
+            let pool = ["k", "key", "k1", "k2", "", "a", "b", "host", "kéy", "k\"q", "z", "zz", "é", "€", "~"];
             pool[choose(pool.len(), "key.word")].as_bytes().to_vec()
         }
         1 => vec![0xFF, b'k'],
         2 => vec![0xC3, 0x28],
-        _ => vec![b'k', 0xFE],
+        3 => vec![b'k', 0xFE],
+        4 => vec![b'b', 0xFF],
+        _ => vec![0x80],
     }
 }
 
@@ -321,6 +325,13 @@ pub fn gen_value(ty: &MType, size: usize) -> MValue {
             let mut m = BTreeMap::new();
             for _ in 0..n {
                 m.insert(gen_key(), gen_value(t, size.saturating_sub(1).max(1)));
+            }
+            if size >= 3 && chance(1, 8, "map.sandwich") {
+                // a non-UTF-8 key strictly between two UTF-8 keys, or the other way round
+                let keys: [&[u8]; 3] = if chance(1, 2, "map.sandwich_kind") { [b"a", &[b'k', 0xFE], b"z"] } else { [&[0x80], "\u{e9}".as_bytes(), &[0xFF, b'k']] };
+                for k in keys {
+                    m.insert(k.to_vec(), gen_value(t, 1));
+                }
             }
             MValue::Map((**t).clone(), m)
         }
